@@ -30,7 +30,9 @@
 //                                 verdict, skb->mark, cb[], pkt_type, redirect kind/ifindex/flags, bpf_sk_assign
 //                                 target, leaked socket refs, resulting frame bytes, ringbuf events, map-op log.
 //                                 LinearLen = bytes in the linear area at entry (direct packet access sees only
-//                                 these); PullFails makes bpf_skb_pull_data fail when it would have to pull.
+//                                 these); PullFails makes bpf_skb_pull_data (only that helper; bpf_skb_store_bytes
+//                                 still linearises) fail when it would have to pull: LinearLen 0 + PullFails forces
+//                                 the bpf_skb_load_bytes parsing path.
 //                                 NOTE (kernel semantics, modelled literally): bpf_skb_pull_data(skb, 128) FAILS on
 //                                 a frame shorter than 128 bytes, so short frames always take parse_transport_slow.
 //   k.KeysFromFrame(...) ksFrameKeys   runs the real parse_packet()/get_tuples()/copy_reversed_tuples()/
@@ -221,6 +223,7 @@ type ksInfo struct {
 	ParamSize uint32
 	Maps      []ksMapInfo
 	Progs     [][2]string // C function name, section
+	Consts    map[string]int64 // enum/#define values as the C compiler sees them (L4ProtoType_TCP, OUTBOUND_*, ...)
 }
 
 type ksSim struct {
@@ -704,6 +707,12 @@ func (k *ksSim) Info() ksInfo {
 		name := r.str()
 		sec := r.str()
 		o.Progs = append(o.Progs, [2]string{name, sec})
+	}
+	o.Consts = map[string]int64{}
+	n = int(r.u32())
+	for i := 0; i < n; i++ {
+		name := r.str()
+		o.Consts[name] = int64(r.u64())
 	}
 	r.done()
 	return o
